@@ -1126,6 +1126,7 @@ func ExtractDomain(email string) (string, error) {
 func ReadDataCommand(r *bufio.Reader, maxSize int64) ([]byte, error) {
 	var buf bytes.Buffer
 	var size int64
+	tooLarge := false
 
 	for {
 		line, err := r.ReadString('\n')
@@ -1136,6 +1137,12 @@ func ReadDataCommand(r *bufio.Reader, maxSize int64) ([]byte, error) {
 		// Check for end of data marker (single dot on a line)
 		if line == ".\r\n" || line == ".\n" {
 			break
+		}
+
+		// An over-size message is still read up to its end-of-data marker (and discarded), so that the
+		// rest of it is never taken for commands
+		if tooLarge {
+			continue
 		}
 
 		// Handle dot-stuffing (RFC 2821 section 4.5.2)
@@ -1153,8 +1160,13 @@ func ReadDataCommand(r *bufio.Reader, maxSize int64) ([]byte, error) {
 
 		// Check size limit
 		if size > maxSize {
-			return nil, fmt.Errorf("message size exceeds maximum allowed size (%d bytes)", maxSize)
+			tooLarge = true
+			buf.Reset()
 		}
+	}
+
+	if tooLarge {
+		return nil, fmt.Errorf("message size exceeds maximum allowed size (%d bytes)", maxSize)
 	}
 
 	return buf.Bytes(), nil
